@@ -339,6 +339,34 @@ example :
     ∧ (World.run exEnv exWorld exHist).ctx.log = [] := by
   refine ⟨exGood, opOk_of_bool _ (by decide), by decide, by decide, by decide, by decide, by decide⟩
 
+/-- `x = Any(factory=f)` with a factory (callable 1000) that returns a fresh `[3]`; handler 0 is `_x_changed`. -/
+def exEnvF : Env := { exEnv with factory := fun _ _ _ => .ok (.fresh [.atom 3]) }
+
+def exCoreF : TraitCore := { dvt := Generated.CALLABLE_AND_ARGS_DEFAULT_VALUE, dv := some 1000 }
+
+def exWorldF : World :=
+  { classes := [{ traits := [(0, { handler := exCoreF,
+                                   ctrait := { core := exCoreF, notifiers := some [⟨.static, 0, 1⟩] } })] }],
+    ctx := { alloc := 10 } }
+
+/-- Non-vacuity of `C10_once` / `C10_first_read` / `C10_silent`: the invariant
+holds initially for a class with a factory default; after reads, a repeated
+read, an assignment and a read on a second instance the factory ran exactly
+once per instance, the first read returned the fresh object the factory built,
+and no handler was called by the reads (the one call is the assignment's). -/
+example :
+    OnceInv exEnvF exWorldF
+    ∧ (World.step exEnvF (World.run exEnvF exWorldF [.new 0]) (.get 0 0)).1 = { val := some 11 }
+    ∧ (let w := World.run exEnvF exWorldF [.new 0, .get 0 0, .get 0 0, .set 0 0 4, .get 0 0, .new 0, .get 1 0]
+       w.fcount 10 0 = 1 ∧ w.fcount 12 0 = 1 ∧ w.ctx.log = [⟨10, 0, 11, 4⟩]) := by
+  refine ⟨C10_once_initial _ _ rfl ?_, by decide, by decide⟩
+  intro k hk p hp obj name c
+  simp only [List.mem_singleton] at hk
+  subst hk
+  simp only [List.mem_singleton] at hp
+  subst hp
+  exact ⟨_, rfl⟩
+
 /-- What `buildClass` produces for the subclass `x = [5]` (object 11) of `exBase`:
 a CONSTANT default holding object 11 itself. -/
 def exSub : ClassRec :=
